@@ -10,8 +10,8 @@ def run(c):
     if c.tier == "thorough":
         names += ["k_rank_sort_stable_6"]
     obl_kani.run(c, names, timeout=3000)
-    if A.validate_assembly_concrete(c):
-        ct = A.conv_table_for([p for w in A.WRAPPERS_QUICK for p in w])
-        A.obl_order(c, ct, thorough=(c.tier == "thorough"), budget_s=1500)
+    A.validate_assembly_concrete(c)     # a mismatch makes the run inconclusive; the obligations still run, and what they find is reported only after native confirmation
+    ct = A.conv_table_for([p for w in A.WRAPPERS_QUICK for p in w])
+    A.obl_order(c, ct, thorough=(c.tier == "thorough"), budget_s=1500)
     c.outside("that edit_distance is the edit distance; the content of the dictionary; words longer than the bound; "
               "Rank numbers outside the producible domain (the comparator is not a total order there)")
